@@ -9,7 +9,7 @@ from . import gen, oracles as O, simcheck
 
 class Kit:
     def __init__(self, pid, oracle, streams=(("structured", 0.66), ("pairs", 0.11), ("crossing", 0.11), ("conveyor", 0.06), ("autoabs", 0.06)), n_quick=1200, n_thorough=20000,
-                 cone=None, rule="", feasible_frac=0.5, make_ops=None, facilities=None, fs_only=False,
+                 cone=None, rule="", feasible_frac=0.5, make_ops=None, facilities=None, fs_only=False, tweak=None,
                  post=None):
         self.pid, self.oracle, self.streams = pid, oracle, streams
         self.n_quick, self.n_thorough = n_quick, n_thorough
@@ -18,6 +18,7 @@ class Kit:
         self.rule = rule
         self.feasible_frac = feasible_frac
         self.make_ops = make_ops
+        self.tweak = tweak
         self.facilities = facilities
         self.fs_only = fs_only
         self.modname = "harness.props." + pid.lower()
@@ -56,6 +57,10 @@ class Kit:
                 c["ops"][0]["rule"] = rng.choice([0, 4, 5, 6, 6, 5, 1])
                 c["ops"][0]["abs"] = []
             c["stream"] = stream
+            if self.tweak:
+                self.tweak(rng, c)
+            if not self.make_ops or all(o.get("op") == "simulate" for o in c["ops"]):
+                gen.usage_variants(rng, c)
             cases.append(c)
         return cases
 
